@@ -34,8 +34,8 @@ structure OState where
   roc : Rat := 0
   overSeen : Bool := false
 
-def bookClose (b : Spec.Book) (sh : Rat) (acb : Option Rat) : Bool :=
-  close b.shares sh && closeOpt b.acb acb
+def bookClose (mag : Rat) (b : Spec.Book) (sh : Rat) (acb : Option Rat) : Bool :=
+  close b.shares sh && closeOptAt mag b.acb acb
 
 /-- a decimal with at most 12 decimal places and magnitude below 10^12 -/
 def shortDecimal (q : Rat) : Bool := isInteger (pow10 12 * q) && decide (rabs q < pow10 12)
@@ -44,7 +44,7 @@ def sumShares (st : OState) : Rat := sumOver st.affs (fun a => (st.books a).shar
 def sumAcb (st : OState) : Rat := sumOver st.affs (fun a => ((st.books a).acb).getD 0)
 
 /-- Returns the list of failed oracles as (property, message). -/
-partial def oracleRows (initAcb : Rat) (c3 : Bool) (complete : Bool) (i : Nat) (st : OState) :
+partial def oracleRows (mag : Rat) (initAcb : Rat) (c3 : Bool) (complete : Bool) (i : Nat) (st : OState) :
     List (Tx × ImplDelta) → List (String × String)
   | [] => []
   | (t, x) :: rest =>
@@ -58,11 +58,11 @@ partial def oracleRows (initAcb : Rat) (c3 : Bool) (complete : Bool) (i : Nat) (
     let g0 := Spec.gain0 b t.act
     let expGain := g0.map (fun g => g - lossOf)
     let e1 : List (String × String) :=
-      if !bookClose b x.pre.shares x.pre.acb then
+      if !bookClose mag b x.pre.shares x.pre.acb then
         [("C01", s!"row {i}: pre status ({ratToString x.pre.shares},{showOpt x.pre.acb}) is not the affiliate's book ({ratToString b.shares},{showOpt b.acb})")]
-      else if !bookClose b' x.post.shares x.post.acb then
+      else if !bookClose mag b' x.post.shares x.post.acb then
         [("C01", s!"row {i}: post status ({ratToString x.post.shares},{showOpt x.post.acb}) deviates from the average-cost rules ({ratToString b'.shares},{showOpt b'.acb})")]
-      else if !closeOptAt (rabs (b.acb.getD 0) + rabs lossOf) expGain x.gain then
+      else if !closeOptAt mag expGain x.gain then
         [("C01", s!"row {i}: gain {showOpt x.gain} deviates from proceeds-commission-cost-sfl {showOpt expGain}")]
       else []
     let e4 : List (String × String) :=
@@ -104,7 +104,7 @@ partial def oracleRows (initAcb : Rat) (c3 : Bool) (complete : Bool) (i : Nat) (
         else [("C03", s!"after row {i}: gains so far {ratToString st'.gains} ≠ proceeds−costs+roc+held cost base {ratToString rhs}")]
       else []
     let errs := e1 ++ e4 ++ e3 ++ e15
-    if errs.isEmpty then oracleRows initAcb c3 complete (i + 1) st' rest else errs
+    if errs.isEmpty then oracleRows mag initAcb c3 complete (i + 1) st' rest else errs
 
 def ledgerOracles (dflt : Aff) (init : Option Status) (txs : List Tx) (impls : List ImplDelta)
     (complete : Bool := true) :
@@ -115,7 +115,10 @@ def ledgerOracles (dflt : Aff) (init : Option Status) (txs : List Tx) (impls : L
     let c3 := txs.all (fun t => !t.aff.registered &&
       (match t.act with | .sell _ _ _ _ _ (some _) => false | .sfla .. => false | _ => true))
     let initAcb := match init with | some s => s.acb.getD 0 | none => 0
-    oracleRows initAcb c3 complete 0 { books := Spec.Books.init dflt init, affs := [dflt] } rows
+    -- the largest money figure among the implementation's rows (see `Driver.caseMag`)
+    let mag := rows.foldl (fun m (_, x) =>
+      [rabs (x.pre.acb.getD 0), rabs (x.post.acb.getD 0), rabs (x.gain.getD 0)].foldl (fun m v => if m < v then v else m) m) 0
+    oracleRows mag initAcb c3 complete 0 { books := Spec.Books.init dflt init, affs := [dflt] } rows
 
 def alignedRows (txs : List Tx) (impls : List ImplDelta) : List (Tx × ImplDelta) :=
   (alignRows txs impls).getD []
